@@ -45,7 +45,7 @@ class C06(BaseCheck):
   REQUIRED_CLASSES = ('phase:in-band', 'phase:pinned-max', 'phase:pinned-min', 'phase:pinned-members',
                       'expansion', 'contraction', 'jitter-round', 'member-down', 'leave-active',
                       'leave-during-jitter-round', 'close-raises-in-jitter-round',
-                      'second-balancer-connecting', 'wall-clock-steps-back')
+                      'second-balancer-connecting', 'wall-clock-steps-back', 'yielding-log-handler', 'leave-at-jitter-start')
   ASSUMPTIONS = ('smoothed load = harness reference EMA with the balancer\'s documented 5 s window and the '
                  'same sampling points, on the documented clock (wall time while it moves forward; standing still while a stepped-back wall clock is behind an earlier reading) (cross-checked against the published load_average gauge); phases whose '
                  'per-member load is within 1e-6 of a band edge for a relevant size are skipped and counted',
@@ -161,7 +161,17 @@ class C06(BaseCheck):
     pending_log = []
     orig_try_expand = lb._TryExpandAperture
 
+    jitter_leave = []
+
     def try_expand(leave_pending=False):
+      if leave_pending and env.log_yields is not None and lb._idle_endpoints and rng.random() < 0.5:
+        # (cases with the yielding log handler) an active member leaves in the very instant a jitter
+        # round starts: its notification is delivered at the round's first yield
+        act_ = [n_.endpoint for n_ in lb._heap[1:] if n_.endpoint in ss.truth and n_.endpoint not in lb._pending_endpoints]
+        if len(act_) > 1:
+          classes.add('leave-at-jitter-start')
+          jitter_leave.append(True)
+          ss.leave(rng.choice(sorted(act_, key=str)))
       r_ = orig_try_expand(leave_pending)
       if r_[1] is not None:
         pending_log.append((env.now, str(r_[1]), 'jitter' if leave_pending else 'load/replacement', r_[0].ready()))
@@ -213,6 +223,12 @@ class C06(BaseCheck):
         mono_last[0] = t_
       return mono_last[0]
     step_case = idx % 5 == 2
+    if idx % 7 == 3:
+      # debug logging through a handler that yields: the balancer logs in the middle of widening and
+      # contracting, so jitter rounds, leaves and traffic interleave at those points
+      env.yielding_logs()
+      env.log_yield_ok = w.lock_free
+      classes.add('yielding-log-handler')
     # feed the reference EMA from the harness' own boundary events
     chan_cls = w.MemberChannel
     orig_apr = chan_cls.AsyncProcessRequest
@@ -326,6 +342,9 @@ class C06(BaseCheck):
       ev_mark, log_mark = len(env.events), len(env.logs)
       fn()
       env.settle()
+      if jitter_leave:
+        del jitter_leave[:]
+        left_active = True
       safety(pre, ev_mark, log_mark, left_active, joined)
       if jitter and lb._pending_endpoints and not in_race[0] and rng.random() < 0.35:
         # a membership change lands while a jitter round is still waiting for its new member to open
